@@ -79,7 +79,7 @@ class A:
         if interfaces and self.chance(35):
             it = self.pick(interfaces)
             parents.append((it["name"], None))
-            implements = [m for m in it["members"] if m[0] == "method"]
+            implements = [m for m in it.get("all_members", it["members"]) if m[0] == "method"]
         for _ in range(self.int(0, 3)):
             args.append((self.name(), self.pick(TYPES), self.chance(70)))
         members = []
@@ -127,6 +127,14 @@ class A:
             it = self.interface()
             interfaces.append(it)
             items.append(("class", it))
+            if self.chance(35):
+                # a type without body that only names its parent: still a class of its own, which others may extend
+                name = "R" + self.name("fine_").replace("_", "")
+                self.used.add(name)
+                ref = {"kind": "type", "name": name, "args": [], "parents": [(it["name"], None)], "members": [],
+                       "all_members": it["members"]}
+                interfaces.append(ref)
+                items.append(("class", ref))
         for _ in range(self.int(1, 3)):
             c = self.klass(classes, interfaces)
             classes.append(c)
@@ -174,7 +182,7 @@ def render(prog):
             out.append("")
             continue
         if it["kind"] == "type":
-            out.append("type %s" % it["name"])
+            out.append("type %s" % it["name"] + (": " + ", ".join(p for p, _a in it["parents"]) if it["parents"] else ""))
             for m in it["members"]:
                 f = m[1]
                 head = "    def %s(%s)" % (f["name"], render_params(f["params"], "fin self" if f["self_fin"] else "self"))
